@@ -12,7 +12,7 @@ def run(chk):
     traces = []
     for tau in range(2, 7):
         traces.append(P.run_clique(tau))
-    for n in range(3, 11 if thorough else 10):
+    for n in range(3, 13 if thorough else 10):
         traces.append(P.run_cycle(n))
     for n in range(1, 7):
         for k in range(0, n * (n - 1) // 2 + 1):
@@ -22,17 +22,19 @@ def run(chk):
             traces.append(P.run_countmod(n, k))
     chk.exhaustive["Q and QQ against brute force for all n <= 6, all k; Q modulo five primes for all n <= 12, all k"] = True
     # connected-subgraph counter: every graph on <= 4 vertices, every vertex subset containing the focal vertex, every k
-    for n in (2, 3, 4):
+    for n in (2, 3, 4) + ((5,) if thorough else ()):
         V = list(range(n))
         pairs = list(itertools.combinations(V, 2))
         for mask in range(1, 1 << len(pairs)):
+            if n == 5 and mask % 3:
+                continue
             E = [list(pairs[i]) for i in range(len(pairs)) if mask >> i & 1]
             for r in range(1, n + 1):
                 for A in itertools.combinations(V, r):
                     ind = [e for e in E if e[0] in A and e[1] in A]
                     for k in range(0, len(ind) + 1):
                         traces.append(P.run_ncg({"V": V, "E": E, "A": list(A), "focal": A[0], "k": k}))
-    for i in range(400 if thorough else 60):
+    for i in range(4000 if thorough else 60):
         n = rng.choice([5, 6])
         V = list(range(n))
         E = [list(e) for e in itertools.combinations(V, 2) if rng.random() < rng.choice([0.35, 0.6, 0.8])]
